@@ -1,6 +1,7 @@
 //! vx-sim: engines A/B/C/F — scenarios driven through a real `turmoil::Sim`.
 
 mod c02;
+mod c04;
 mod c09;
 mod c12;
 mod c15;
@@ -95,6 +96,12 @@ fn main() {
             run_dfs(&mut rep, "barriers-registry-preemption-bounded", tier.pick(2, 4), wall, move |ch| c20::scenario(ch, thorough, 1));
             rep.finish();
         }
+        "C04" => {
+            let mut rep = Report::new("C04", tier, "model_checking", "sim");
+            rep.rule = "complete fault grid: workload (TCP with a reading / non-reading / slow-accepting victim and two reconnecting peers, UDP + multicast holder, idle host with nested spawn / spawn_local tasks) x {crash before step c then bounce after 0/1/3 steps or never | bounce without crash before step c | crash, bounce, crash again} x victim selected by name or regex, c over every step of the workload; drop guards at crash return, frozen side effects while down, empty socket tables (count hook), no peer operation left hanging after a 40-step fair suffix, ports bindable by the next incarnation, factory invocations = 1 + bounces, no old-stream bytes or stale multicast membership at the new incarnation, uninvolved hosts' logs identical to the crash-free twin".into();
+            run_dfs(&mut rep, "crash-bounce-grid", 0, wall, move |ch| c04::scenario(ch, thorough));
+            rep.finish();
+        }
         "C05" => {
             let mut rep = Report::new("C05", tier, "model_checking", "sim");
             rep.rule = "complete grid, enumerated by the stateless explorer: tick x epoch x random host order x sleep lengths (dividing and not dividing the tick, shorter and longer than it) x late host registration step x late client x {crash h1 before step c, bounce after k steps | h1's software returns by itself then bounce | bounce without crash}; every host runs sleep / timeout / interval tasks sampling elapsed, sim_elapsed, since_epoch and tokio Instant; closed-form reference".into();
@@ -125,6 +132,7 @@ fn replay(path: &str) {
         "C03" => flow::c03_scenario(&mut ch, thorough),
         "C14" => flow::c14_scenario(&mut ch, thorough),
         "C12" => c12::scenario(&mut ch, thorough),
+        "C04" => c04::scenario(&mut ch, thorough),
         "C05" => timegrid::c05_scenario(&mut ch, thorough),
         "C11" => timegrid::c11_scenario(&mut ch, thorough),
         "C20" => {
